@@ -335,7 +335,7 @@ class PercentFormatString:
                 # already reports those.
                 keys_left = cs_map.keys() - seen_keys - {None}
                 if keys_left and not non_literals:
-                    yield f"No value specified for keys {', '.join(keys_left)}"
+                    yield f"No value specified for keys {', '.join(sorted(keys_left))}"
         else:
             yield f"% string requires a mapping, not {args}"
 
